@@ -207,14 +207,13 @@ package encode
 //@ func encodeMessageTable
 //@   safety[C08]
 //@   requires b != nil
-//@   requires !big ==> (forall k :: 0 <= k && k < len(table) ==> table[k].Tag <= 255 && table[k].Offset <= 65535)
 //@   modifies buffer.len at b
 //@   modifies buffer.obj at b
 //@   modifies uint8
 //@   let L = blen(b)
 //@   let fs = ite(big, 6, 3)
 //@   ensures[C08,C01] len(table) * fs <= 2147483647 ==> result1 == nil && result0 == len(table) * fs && blen(b) == L + result0 && L >= 0
-//@   ensures[C08,C01] len(table) * fs <= 2147483647 && !big ==> (forall k :: 0 <= k && k < len(table) ==>
+//@   ensures[C08,C01] len(table) * fs <= 2147483647 && !big && (forall k :: 0 <= k && k < len(table) ==> table[k].Tag <= 255 && table[k].Offset <= 65535) ==> (forall k :: 0 <= k && k < len(table) ==>
 //@        smallTag(bytesOf(bobj(b)), L, k) == table[k].Tag && smallOff(bytesOf(bobj(b)), L, k) == table[k].Offset)
 //@   ensures[C08,C01] len(table) * fs <= 2147483647 && big ==> (forall k :: 0 <= k && k < len(table) ==>
 //@        bigTag(bytesOf(bobj(b)), L, k) == table[k].Tag && bigOff(bytesOf(bobj(b)), L, k) == table[k].Offset)
@@ -223,28 +222,27 @@ package encode
 //@   loop 1 modifies uint8 at p
 //@   loop 1 invariant 0 - 1 <= rangeindex && rangeindex < len(table) && len(p) == size && cap(p) >= size && lo(p) == L && obj(p) == bobj(b) && obj(p) != obj(table)
 //@   loop 1 invariant (big ==> fieldSize == 6 && off == (rangeindex + 1) * 6 && size == len(table) * 6) && (!big ==> fieldSize == 3 && off == (rangeindex + 1) * 3 && size == len(table) * 3)
-//@   loop 1 invariant !big ==> (forall k :: 0 <= k && k <= rangeindex ==> smallTag(mem(p), L, k) == table[k].Tag && smallOff(mem(p), L, k) == table[k].Offset)
+//@   loop 1 invariant !big && (forall k :: 0 <= k && k < len(table) ==> table[k].Tag <= 255 && table[k].Offset <= 65535) ==> (forall k :: 0 <= k && k <= rangeindex ==> smallTag(mem(p), L, k) == table[k].Tag && smallOff(mem(p), L, k) == table[k].Offset)
 //@   loop 1 invariant big ==> (forall k :: 0 <= k && k <= rangeindex ==> bigTag(mem(p), L, k) == table[k].Tag && bigOff(mem(p), L, k) == table[k].Offset)
 //@   loop 1 invariant forall i :: 0 <= i && i < L ==> mem(p)[i] == old(bytesOf(bobj(b)))[i]
 
 //@ func encodeListTable
 //@   safety[C08]
 //@   requires b != nil
-//@   requires !big ==> (forall k :: 0 <= k && k < len(table) ==> table[k].Offset <= 65535)
 //@   modifies buffer.len at b
 //@   modifies buffer.obj at b
 //@   modifies uint8
 //@   let L = blen(b)
 //@   let es = ite(big, 4, 2)
 //@   ensures[C08,C01] len(table) * es <= 2147483647 ==> result1 == nil && result0 == len(table) * es && blen(b) == L + result0 && L >= 0
-//@   ensures[C08,C01] len(table) * es <= 2147483647 && !big ==> (forall k :: 0 <= k && k < len(table) ==> listSmallEnd(bytesOf(bobj(b)), L, k) == table[k].Offset)
+//@   ensures[C08,C01] len(table) * es <= 2147483647 && !big && (forall k :: 0 <= k && k < len(table) ==> table[k].Offset <= 65535) ==> (forall k :: 0 <= k && k < len(table) ==> listSmallEnd(bytesOf(bobj(b)), L, k) == table[k].Offset)
 //@   ensures[C08,C01] len(table) * es <= 2147483647 && big ==> (forall k :: 0 <= k && k < len(table) ==> listBigEnd(bytesOf(bobj(b)), L, k) == table[k].Offset)
 //@   ensures[C08] len(table) * es > 2147483647 ==> result1 != nil && blen(b) == L
 //@   ensures[C08] forall i :: 0 <= i && i < L ==> bytesOf(bobj(b))[i] == old(bytesOf(bobj(b)))[i]
 //@   loop 1 modifies uint8 at p
 //@   loop 1 invariant 0 - 1 <= rangeindex && rangeindex < len(table) && len(p) == size && cap(p) >= size && lo(p) == L && obj(p) == bobj(b) && obj(p) != obj(table)
 //@   loop 1 invariant (big ==> elemSize == 4 && off == (rangeindex + 1) * 4 && size == len(table) * 4) && (!big ==> elemSize == 2 && off == (rangeindex + 1) * 2 && size == len(table) * 2)
-//@   loop 1 invariant !big ==> (forall k :: 0 <= k && k <= rangeindex ==> listSmallEnd(mem(p), L, k) == table[k].Offset)
+//@   loop 1 invariant !big && (forall k :: 0 <= k && k < len(table) ==> table[k].Offset <= 65535) ==> (forall k :: 0 <= k && k <= rangeindex ==> listSmallEnd(mem(p), L, k) == table[k].Offset)
 //@   loop 1 invariant big ==> (forall k :: 0 <= k && k <= rangeindex ==> listBigEnd(mem(p), L, k) == table[k].Offset)
 //@   loop 1 invariant forall i :: 0 <= i && i < L ==> mem(p)[i] == old(bytesOf(bobj(b)))[i]
 
@@ -271,14 +269,14 @@ package encode
 //@ func EncodeListTable
 //@   safety[C08]
 //@   requires b != nil
-//@   requires forall k :: 0 <= k && k < len(table) ==> table[k].Offset <= table[len(table)-1].Offset
 //@   modifies buffer.len at b
 //@   modifies buffer.obj at b
 //@   modifies uint8
 //@   let L = blen(b)
 //@   let big = len(table) > 255 || (exists k :: 0 <= k && k < len(table) && table[k].Offset > 65535)
 //@   let ts = len(table) * ite(big, 4, 2)
-//@   let ok = 0 <= dataSize && dataSize <= 2147483647 && ts <= 2147483647
+//@   let ok = 0 <= dataSize && dataSize <= 2147483647 && ts <= 2147483647 && (forall k :: 0 <= k && k < len(table) ==> table[k].Offset <= table[len(table)-1].Offset)
+//@   let sized = 0 <= dataSize && dataSize <= 2147483647
 //@   ensures[C08,C01] ok ==> result1 == nil && result0 == ts + uvarintLen(dataSize) + uvarintLen(ts) + 1 && blen(b) == L + result0
 //@   ensures[C08,C01] ok && !big ==> (forall k :: 0 <= k && k < len(table) ==> listSmallEnd(bytesOf(bobj(b)), L, k) == table[k].Offset)
 //@   ensures[C08,C01] ok && big ==> (forall k :: 0 <= k && k < len(table) ==> listBigEnd(bytesOf(bobj(b)), L, k) == table[k].Offset)
